@@ -422,6 +422,8 @@ def run(ck):
     ck.run_rule("C06.R1c", "declared operands reach get_as_int / get_as_str as (state, what, statement token, operand token)", 4, rule_cook_contract)
     from ..rules import route as _route
     ck.run_rule("BLK.route", "implicit word lists, constants and labels compiled as statements of a block: values, byte order, the label's address", 1, _route.rule_block_route)
+    from . import c03 as _c03
+    ck.run_rule("C03.R7", "data operands built from constants defined by forward reference: the polynomial arithmetic behind them", 18, _c03.rule_R7)
     ck.run_rule("C06.R23", ".byte/.word/.dword/implicit list: typing, packing, byte order, odd-address guard", 30, rule_R23)
     ck.run_rule("C06.R4", ".blkb/.blkw/.even/.odd/.align fill", 7, rule_R4)
     ck.run_rule("C06.R6", ".ascii/.asciz: charset, <n> bytes, chunk order", 6, rule_R6)
